@@ -90,10 +90,11 @@ C13_UNITS = [U(PRB, f"{DM}.{m}", timeout_ms=20000) for m in ("_convert_gamma_par
           + [U(PRB, f"{FO}.random_event_probability")] \
           + [U(PRB, f"{MJ}.{m}", timeout_ms=20000) for m in ("_setup_before_space_construction", "_calculate_demand_probabilities", "_get_multinomial_logits", "_calculate_received_order_probabilities", "random_event_probability")]
 DIST_ASSUME = ["distribution functions are uninterpreted mathematical functions with assumed contracts: a cdf is non-decreasing with values in [0,1] (Gamma: cdf(0)=0); a pmf is >= 0 and its partial sums are <= 1; exp(log_prob(x)) is the pmf; the multinomial pmf sums to one over the compositions of the order - the numerical accuracy of numpyro / scipy / jax.scipy is trusted",
-               "Hendrix' four-case compound distribution (tables filled by Python loops over scipy calls) and Mirjalili's event-space enumeration are covered only by the bounded harness (complete enumeration on a stated parameter grid)"]
+               "Hendrix: the four-case decomposition of units issued (which case applies, Poisson pmf / cdf factors, row / column placement, event index) is proved with the Poisson functions uninterpreted and the total-demand table pz arbitrary; the CONTENTS of the tables pu / pz (Python loops over scipy calls, truncated at the model's maximum demand) and Mirjalili's event-space enumeration are covered only by the bounded harness (complete enumeration on a stated parameter grid)"]
 PROPS["C13"] = dict(level="proof", bounded=[dict(name="c13_runtime", script="harness_problems.py", args=["--prop", "c13"], wall_s=300)], units=C13_UNITS, lean=["telescope"], assumptions=[ARITH, ENGINE] + DIST_ASSUME)
 PROPS["C16"] = dict(level="other", bounded=[dict(name="c16_runtime", script="harness_problems.py", args=["--prop", "c16"], wall_s=400)],
-    units=C13_UNITS + [U(PRB, f"{HX}.initial_value"), U(PRB, "mdpax.core.problem.Problem.initial_value")], lean=["telescope"], assumptions=[ARITH, ENGINE] + DIST_ASSUME,
+    units=C13_UNITS + [U(PRB, f"{HX}.initial_value"), U(PRB, "mdpax.core.problem.Problem.initial_value"), U(PRB, f"{HX}.random_event_probability", timeout_ms=30000)]
+        + [U(PRB, f"{HX}.{m}") for m in ("_get_probs_ia_lt_stock_a_ib_lt_stock_b", "_get_probs_ia_eq_stock_a_ib_lt_stock_b", "_get_probs_ia_lt_stock_a_ib_eq_stock_b", "_get_probs_ia_eq_stock_a_ib_eq_stock_b")], lean=["telescope"], assumptions=[ARITH, ENGINE] + DIST_ASSUME,
     explanation="plumbing proved (which distribution, which parameters, which bins, which ordering, censoring, product form, initial values) with the distribution functions uninterpreted; numerics of the special functions trusted; Hendrix' joint distribution only bounded (brute-force enumeration up to the documented tail)")
 
 CFGS = ["mdpax.solvers.value_iteration.ValueIterationConfig", "mdpax.solvers.policy_iteration.PolicyIterationConfig",
